@@ -159,9 +159,29 @@ def sites_in(fn):
 
 
 def inventory(p, cone):
+    """Sites of the cone's functions.  A closure that is the body of an iterator-adaptor loop (spliced by
+    Program.fn_loops into the function that builds it) is examined there, in the context of its captures and of the
+    iterator feeding it, exactly like the body of the equivalent `for` loop."""
     out = []
+    skip, hosts = set(), {}
     for path in sorted(cone):
-        out.extend(sites_in(p.fns[path]))
+        f = p.fns[path]
+        if f.kind != "Closure":
+            continue
+        host = f.d.get("closure_of")
+        seen = set()
+        while host in p.fns and p.fns[host].kind == "Closure" and host not in seen:
+            seen.add(host)
+            host = p.fns[host].d.get("closure_of")
+        if host in cone and host in p.fns:
+            hl = p.fn_loops(host)
+            if hl is not p.fns[host] and any(b.get("origin") == path for b in hl.blocks):
+                skip.add(path)
+                hosts[host] = hl
+    for path in sorted(cone):
+        if path in skip:
+            continue
+        out.extend(sites_in(hosts.get(path) or p.fns[path]))
     return out
 
 
@@ -665,6 +685,15 @@ def match_pattern(site, pats):
         if "stores_to" in pt:
             st = stores_to(site)
             if st == {pt["stores_to"]}:
+                return pt
+        if "ops0" in pt:
+            # an index into a named table with an index that is an item of an iterator (no arithmetic on it)
+            if site.fn.path != pt.get("fn") or len(site.ops) < 2:
+                continue
+            if _sig(site.ops[0]) != pt["ops0"]:
+                continue
+            e1 = deep_strip(site.ops[1])
+            if any(x[0] == "call" and x[1].endswith(pt.get("ops1_has_call", "\0")) for x in walk(e1)) and not any(x[0] in ("bin", "un") for x in walk(e1)):
                 return pt
     return None
 
